@@ -756,8 +756,10 @@ impl Laid {
                 None
             }
         };
-        // clause 1: document order, no overlap (non-negative margins)
-        if kids.iter().all(|c| self.subtree_margins_nonneg(*c)) {
+        // clause 1: document order, no overlap (non-negative margins; as in C10_order_no_overlap every box between the two has a
+        // non-negative used height -- a child laid out with a NEGATIVE height, e.g. a flex container whose percentage
+        // padding exceeds its size, pulls the following siblings up: a different defect, outside this clause)
+        if kids.iter().all(|c| self.subtree_margins_nonneg(*c)) && kids.iter().all(|c| h(*c) >= 0.0) {
             for i in 0..kids.len() {
                 for j in i + 1..kids.len() {
                     let (a, c) = (kids[i], kids[j]);
